@@ -9,6 +9,7 @@ import LenaModel.Model.C14Tok
 * `composeInitT`: `Compose.__init__` (lines 345-372) on object identities: `compose = {"variable": deepcopy(v₁.var_context)}`,
   then `_update_context(compose, deepcopy(vᵢ.var_context))` for the others — each step is `Tok.callT` on the
   context object `compose` (`callT` deep-copies the variable's `var_context` first, exactly like lines 354-356).
+* `combineInitT`: the `combine` tuple of `Combine.__init__` (lines 300-302) on object identities.
 * `chainWFk`, `chainOKk`: the Boolean hypotheses `chainWFb`, `chainOKb` computed with the key numbers of the types
   looked up once (`keysOf`) instead of once per slot; `Props/C14X.lean` proves them equal, the driver runs these. -/
 
@@ -110,6 +111,15 @@ def composeInitResult (names : List String) (init : (Nat × TSlots) × List (Exc
   | none => getT init.1.2 (kVariable names)
   | some (.ok r) => getT r.ctx (kVariable names)
   | some (.error _) => none
+
+/-- `Combine.__init__` on identities, lines 300-302: `var_context["combine"] = tuple(copy.deepcopy(var.var_context) for var in
+self._vars)` -- the deep copies are made one after the other, which is the deep copy of the tuple of the arguments'
+`var_context` objects (`deepcopyT` of a tuple copies its elements in order and gives the tuple itself no identity).
+`vars`: the `var_context` objects (token, slots) of the arguments; `next`: the token counter.  Returns the tuple and
+the counter afterwards.  (Everything else `Combine.__init__` puts into the new `var_context` -- `dim`, the name, the
+caller's keyword values -- is no object of an argument.) -/
+def combineInitT (next : Nat) (vars : List (Nat × TSlots)) : TV × Nat :=
+  deepcopyT next (.tuple (vars.map (fun w => TV.dict w.1 w.2)))
 
 end Tok
 end Lena.C14
